@@ -74,7 +74,9 @@ def parse_selection(t, selfterm, subset_p):
                 elif tt == T('attr', selfterm, 'spike_times') and kept == T('attr', selfterm, 'chunks_kept'):
                     probs.append('the chunk mask of all spikes is read at other spikes (%s) than the ones it filters (%s)' % (show(strip(m[3]))[:60], show(strip(base))[:60]))
             if not ok and not probs:
-                probs.append('spikes are indexed with %s, which is not the kept-chunk mask' % show(m)[:60])
+                known = any(is_t(x) and x[1] == 'call' and x[2].endswith('_times_in_chunks') for x in subterms(m)) or (is_t(m) and m[1] in ('attr', 'param', 'index') and
+                                                                                                                    not any(is_t(x) and x[1] == 'call' for x in subterms(m)))
+                probs.append(('' if known else 'UNDECIDED ') + 'spikes are indexed with %s, which is not the kept-chunk mask' % show(m)[:60])
             filters.append('chunks')
             cur = base
             continue
@@ -94,7 +96,8 @@ def parse_selection(t, selfterm, subset_p):
             filters.append(('count', args[1] if len(args) > 1 else kws.get('size'), kws.get('replace', args[2] if len(args) > 2 else None)))
             cur = args[0]
             continue
-        probs.append('selection is built with %s, which is not a subset-preserving step of the specification' % show(cur)[:70])
+        widening = is_t(cur) and cur[1] == 'call' and cur[2] in ('np.union1d', 'np.concatenate', 'np.append', 'np.hstack', 'np.arange', 'np.setxor1d')
+        probs.append(('' if widening else 'UNDECIDED ') + 'selection is built with %s, which is not a subset-preserving step of the specification' % show(cur)[:70])
         return cur, filters, probs
 
 
@@ -200,16 +203,23 @@ def d1_call(ctx):
                 rv = strip(val)
                 ok = is_t(rv) and rv[1] == 'call' and rv[2] == '_flatten_per_cluster' and len(rv) == 4 and rv[3] == strip(dct)
                 if not ok:
-                    probs.setdefault('the result is %s, not the flattened per-cluster selection' % show(rv)[:70], 1)
+                    definite = rv == strip(dct) or (is_t(rv) and rv[1] == 'call' and rv[2] in ('np.concatenate', 'np.hstack', 'np.sort', 'list', 'np.array')) or \
+                        (is_t(rv) and rv[1] == 'call' and rv[2] == '_flatten_per_cluster')
+                    probs.setdefault(('' if definite else 'UNDECIDED ') + 'the result is %s, not the flattened per-cluster selection' % show(rv)[:70], 1)
     # empty request
     I = SymInterp(repo, unroll=1, inline_depth=0)
     outs = I.run(fi, env={selfp: me, ids_p: T('tuple')})
     empt = [val for kind, val, st in outs if kind == 'return']
     ok_empty = bool(empt) and all(is_t(strip(v)) and strip(v)[2] in ('np.array', 'np.zeros', 'np.empty') and not any(e[0] == 'setitem' for e in st.trace)
                                   for (kind, v, st) in outs if kind == 'return')
-    if probs:
-        for msg in list(probs)[:4]:
+    und_msgs = [m_ for m_ in probs if m_.startswith('UNDECIDED ')]
+    real = [m_ for m_ in probs if not m_.startswith('UNDECIDED ')]
+    if real:
+        for msg in real[:4]:
             ctx.violated('C17.D1', fi, msg[:150], msg)
+    elif und_msgs:
+        for msg in und_msgs[:3]:
+            ctx.undecided('C17.D1', fi, msg[len('UNDECIDED '):])
     else:
         ctx.holds('C17.D1', fi, 'per-cluster selection = get_spikes_per_cluster(cluster) filtered by exactly the demanded steps (kept-chunk mask of '
                   'its own times iff subset_chunks; intersect1d with the subset iff given; choice(n, replace=False) iff n is not None and n > 0 and '
